@@ -211,6 +211,33 @@ func histKeyTypes(val interface{}) (string, bool) {
 	return "", false
 }
 
+// histSubjects: the value, the structures it shares by pointer or hands out, and (second level) what those hand out
+// in turn — RouterInfo → RouterIdentity → Certificate, LeaseSet2 → Destination → KeyCertificate …
+func histSubjects(root reflect.Value) []c18Subject {
+	out := append([]c18Subject{}, c18Subjects(root, true, 6)...)
+	seen := map[uintptr]bool{}
+	for _, s := range out {
+		seen[s.v.Pointer()] = true
+	}
+	for _, s := range append([]c18Subject{}, out[1:]...) {
+		var nested []c18Subject
+		func() {
+			defer func() { recover() }()
+			nested = c18Subjects(s.v, true, 5)
+		}()
+		for _, n := range nested {
+			if len(out) >= 16 {
+				return out
+			}
+			if n.v.Kind() == reflect.Ptr && !n.v.IsNil() && !seen[n.v.Pointer()] {
+				seen[n.v.Pointer()] = true
+				out = append(out, c18Subject{s.key + "→" + n.key, n.v})
+			}
+		}
+	}
+	return out
+}
+
 // histDerived: for values with Hash()/Base32Address(), a checker that compares them with SHA-256 of the given
 // (current) serialisation; returns "" when consistent.
 func histDerived(root reflect.Value) func(cur []byte) string {
@@ -287,7 +314,7 @@ func init() {
 		// ---- H1: queries
 		has, verified0 := verifySucceeds(val)
 		callAllMethods(val)
-		for _, s := range c18Subjects(root, true, 6)[1:] {
+		for _, s := range histSubjects(root)[1:] {
 			callAllMethods(s.v.Interface())
 		}
 		if !same() {
@@ -313,7 +340,7 @@ func init() {
 
 		// ---- H2: results handed out
 		calls := 0
-		subjects := append([]c18Subject{}, c18Subjects(root, true, 6)...)
+		subjects := histSubjects(root)
 		for _, s := range subjects {
 			t := s.v.Type()
 			tn := typeName(s.v)
@@ -482,22 +509,40 @@ func init() {
 
 	suites["HIST"] = func(g *G) {
 		perKind := g.n(10, 120)
-		taken := map[string]int{}
+		byKind := map[string][]c18Val{}
+		var kinds []string
 		for _, v := range c18Pool(g) {
-			if taken[v.kind] >= perKind {
-				continue
-			}
 			if val, _, _ := c18Build(v.kind, unhx(v.hex), atoi(v.aux)); val == nil {
 				continue
 			}
-			taken[v.kind]++
-			g.gen = "history-" + v.kind
-			g.emit("!history", v.kind, v.hex, v.aux)
-			if taken[v.kind] <= g.n(3, 20) {
-				for i, p := range c18Paths[v.kind] {
-					if i > 0 {
-						g.gen = "history-" + v.kind + "-" + p.name
-						g.emit("!history", v.kind+"/"+p.name, v.hex, v.aux)
+			if len(byKind[v.kind]) == 0 {
+				kinds = append(kinds, v.kind)
+			}
+			byKind[v.kind] = append(byKind[v.kind], v)
+		}
+		// identities with a NULL certificate (their key types are implied, not stored in the certificate)
+		for _, k := range []string{"kac", "dest", "rid"} {
+			nb := hx(g.encIdentity([]byte{0, 0, 0}))
+			if val, _, _ := c18Build(k, unhx(nb), 0); val != nil {
+				byKind[k] = append([]c18Val{{k, nb, "0"}}, byKind[k]...)
+			}
+		}
+		for _, kind := range kinds {
+			vs := byKind[kind]
+			n := perKind
+			if n > len(vs) {
+				n = len(vs)
+			}
+			for i := 0; i < n; i++ {
+				v := vs[i*len(vs)/n] // spread over the pool, not its first entries
+				g.gen = "history-" + v.kind
+				g.emit("!history", v.kind, v.hex, v.aux)
+				if i < g.n(3, 20) {
+					for pi, p := range c18Paths[v.kind] {
+						if pi > 0 {
+							g.gen = "history-" + v.kind + "-" + p.name
+							g.emit("!history", v.kind+"/"+p.name, v.hex, v.aux)
+						}
 					}
 				}
 			}
